@@ -88,7 +88,8 @@ def gen_model(rng):
                           ["obs_draw", rng.randrange(len(stats)), rng.randrange(len(dists))])
     model = {"program": prog, "strategy": 3, "stats": stats, "dists": dists,
              "listeners": listeners, "leaf_obs": rng.choice([None, 0, 1]),
-             "stream_seeds": [rng.randrange(1, 10 ** 9) for _ in range(n_streams)],
+             "stream_seeds": [rng.choice([0, 0, -1, 2 ** 63]) if rng.random() < 0.15
+                              else rng.randrange(1, 10 ** 9) for _ in range(n_streams)],
              "probe": False}
     if rng.random() < 0.3:
         # one more stream: the default stream of a StreamInformation() made in
